@@ -63,7 +63,7 @@ def stochC : List (Candle F) → Int → PyM (Val F × List (Candle F)) :=
   fun cs i => Calc.stoch (stochOps name slow smoothK i) { cs := cs, i := i, name := name } p input
 
 /-- the guard of `Calc.stoch` puts the active index at `≥ 1` (`period ≥ 2`) -/
-theorem readingPeriod_pos (x : Ctx F) (q : Int) (inp : String) (hq : 2 ≤ q)
+theorem st_readingPeriod_pos (x : Ctx F) (q : Int) (inp : String) (hq : 2 ≤ q)
     (h : x.readingPeriod q inp = true) : 0 < x.i := by
   have := readingPeriod_true_bound x.cs q inp x.i h
   omega
@@ -75,7 +75,7 @@ theorem stoch_ops_congr (ops ops' : Ops F) (x : Ctx F) (q : Int) (inp : String) 
     Calc.stoch ops x q inp = Calc.stoch ops' x q inp := by
   unfold Calc.stoch
   by_cases hg : x.readingPeriod q inp = true
-  · have hpos := readingPeriod_pos x q inp hq hg
+  · have hpos := st_readingPeriod_pos x q inp hq hg
     simp only [h1 hpos, h2 hpos]
   · simp only [hg, Bool.not_false, if_true]
 
@@ -117,7 +117,7 @@ theorem calcReading_stoch (hp : 2 ≤ p) (f : Nat) (cs : List (Candle F)) (i : I
     rfl
 
 /-- `calcLoop` of a node whose `_calculate_reading` is `C` at any fuel `≥ b` -/
-theorem calcLoop_withB (ind : Ind F) (C : List (Candle F) → Int → PyM (Val F × List (Candle F))) (b : Nat) (hb : 1 ≤ b)
+theorem st_calcLoop_withB (ind : Ind F) (C : List (Candle F) → Int → PyM (Val F × List (Candle F))) (b : Nat) (hb : 1 ≤ b)
     (hC : ∀ f cs i, calcReading (f + b) ind cs i = C cs i) :
     ∀ (n fuel : Nat) (cs : List (Candle F)) (k : Nat), n + b ≤ fuel →
       calcLoop fuel ind cs k n = Gen.nodeLoop (specWith ind C) cs k n := by
@@ -166,7 +166,7 @@ theorem engineCalc_stoch (hp : 2 ≤ p) (cs : List (Candle F)) :
   obtain ⟨f, hf⟩ : ∃ f, 16 + 2 * cs.length = f + 1 := ⟨15 + 2 * cs.length, by omega⟩
   rw [hf, calcSubs_nil]
   simp only [bind, Except.bind]
-  rw [calcLoop_withB (stochP name round p slow smoothK input) (stochC name p slow smoothK input) 7 (by omega)
+  rw [st_calcLoop_withB (stochP name round p slow smoothK input) (stochC name p slow smoothK input) 7 (by omega)
     (calcReading_stoch name round p slow smoothK input hp) _ _ _ _ (by omega)]
   unfold Gen.nodeCalc
   have hn : (specWith (stochP (F := F) name round p slow smoothK input) (stochC name p slow smoothK input)).name
@@ -188,7 +188,7 @@ variable {F : Type} [PyF F]
 /-! ### names -/
 
 /-- a dotted name `<s>.<fld>` addresses the field `fld` of the entry under `s` -/
-theorem splitDot_field (s fld : String) (h : NoDot s) (hf : '.' ∉ fld.toList) :
+theorem st_splitDot_field (s fld : String) (h : NoDot s) (hf : '.' ∉ fld.toList) :
     splitDot (s ++ "." ++ fld) = [s, fld] := by
   have hm := noDot_not_mem s h
   unfold splitDot
@@ -220,7 +220,7 @@ theorem StochNames.dotS {name : String} (hn : StochNames name) :
     have : "_data" ++ ("." ++ "stoch") = "_data.stoch" := by decide
     rw [this]
   rw [e]
-  exact splitDot_field _ _ hn.kD.noDot (by decide)
+  exact st_splitDot_field _ _ hn.kD.noDot (by decide)
 
 theorem StochNames.dotK {name : String} (hn : StochNames name) :
     splitDot (name ++ "_data.k") = [name ++ "_data", "k"] := by
@@ -229,7 +229,7 @@ theorem StochNames.dotK {name : String} (hn : StochNames name) :
     have : "_data" ++ ("." ++ "k") = "_data.k" := by decide
     rw [this]
   rw [e]
-  exact splitDot_field _ _ hn.kD.noDot (by decide)
+  exact st_splitDot_field _ _ hn.kD.noDot (by decide)
 
 /-! ### small facts about candles and dicts -/
 
@@ -264,7 +264,7 @@ theorem st_rbc_noKey (k : String) (hk : IsKey k) (c : Candle F) (h : hasKey k c 
   rw [inds_of_noKey k c h, st_subs_of_noKey k c h]
 
 /-- re-setting two keys in turn collapses to setting each once (Python dict: replace in place) -/
-theorem dset_collapse {α : Type} (k1 k2 : String) (hne : k1 ≠ k2) (a a' : α) (b : α) (l : List (String × α)) :
+theorem st_dset_collapse {α : Type} (k1 k2 : String) (hne : k1 ≠ k2) (a a' : α) (b : α) (l : List (String × α)) :
     dset k1 a' (dset k2 b (dset k1 a l)) = dset k2 b (dset k1 a' l) := by
   induction l with
   | nil => simp [dset, hne]
@@ -278,14 +278,14 @@ theorem dset_collapse {α : Type} (k1 k2 : String) (hne : k1 ≠ k2) (a a' : α)
         simp [dset, h1, dset_dset_self]
       · simp [dset, h1, h2, ih]
 
-theorem setKey_collapse (k1 k2 : String) (hne : k1 ≠ k2) (a a' b b' : Val F) (c : Candle F) :
+theorem st_setKey_collapse (k1 k2 : String) (hne : k1 ≠ k2) (a a' b b' : Val F) (c : Candle F) :
     setKey true k2 b' (setKey true k1 a' (setKey true k2 b (setKey true k1 a c)))
       = setKey true k2 b' (setKey true k1 a' c) := by
   simp only [setKey, if_true]
-  rw [dset_collapse k1 k2 hne, dset_dset_self]
+  rw [st_dset_collapse k1 k2 hne, dset_dset_self]
 
 /-- a dotted name does not see entries under other keys -/
-theorem indep_dotted (k full D fld : String) (hs : splitDot full = [D, fld]) (hne : k ≠ D) :
+theorem st_indep_dotted (k full D fld : String) (hs : splitDot full = [D, fld]) (hne : k ≠ D) :
     Indep F k full := by
   intro isSub v c
   unfold readingByCandle
@@ -296,7 +296,7 @@ theorem indep_dotted (k full D fld : String) (hs : splitDot full = [D, fld]) (hn
 
 /-- the SMA reading at index `H.length` only depends on the history and on what the current candle
 reads under the input name -/
-theorem sma_last (H : List (Candle F)) (c c' : Candle F) (nm : String) (q : Int) (inp : String)
+theorem st_sma_last (H : List (Candle F)) (c c' : Candle F) (nm : String) (q : Int) (inp : String)
     (h : readingByCandle c' inp = readingByCandle c inp) :
     Calc.sma { cs := H ++ [c'], i := H.length, name := nm } q inp
       = Calc.sma { cs := H ++ [c], i := H.length, name := nm } q inp := by
@@ -305,7 +305,7 @@ theorem sma_last (H : List (Candle F)) (c c' : Candle F) (nm : String) (q : Int)
   · rw [Ctx.prevNum_append_cons, Ctx.prevNum_append_cons]
 
 /-- no look-ahead for an SMA at the end of a history satisfying its invariant -/
-theorem sma_loc (H : List (Candle F)) (c : Candle F) (rest : List (Candle F)) (nm : String) (q : Int)
+theorem st_sma_loc (H : List (Candle F)) (c : Candle F) (rest : List (Candle F)) (nm : String) (q : Int)
     (inp : String) (hq : 1 ≤ q) (hinv : WindowInv nm q H) :
     Calc.sma { cs := H ++ c :: rest, i := H.length, name := nm } q inp
       = Calc.sma { cs := H ++ [c], i := H.length, name := nm } q inp := by
@@ -317,7 +317,7 @@ theorem sma_loc (H : List (Candle F)) (c : Candle F) (rest : List (Candle F)) (n
   exact hinv hnn
 
 /-- one unconditional step of an SMA leaf (stored in `.sub_indicators`) at the end of such a history -/
-theorem stepLeaf_sma (Z : Ind F) (q : Int) (inp : String) (hk : Z.kind = .sma q inp) (hsub : Z.isSub = true)
+theorem st_stepLeaf_sma (Z : Ind F) (q : Int) (inp : String) (hk : Z.kind = .sma q inp) (hsub : Z.isSub = true)
     (hr : Z.round = defaultRound) (H : List (Candle F)) (c c₀ : Candle F) (rest : List (Candle F))
     (hq : 1 ≤ q) (hinv : WindowInv Z.name q H) (h : readingByCandle c inp = readingByCandle c₀ inp) :
     stepLeaf Z (H ++ c :: rest) H.length = (do
@@ -327,7 +327,7 @@ theorem stepLeaf_sma (Z : Ind F) (q : Int) (inp : String) (hk : Z.kind = .sma q 
   show (do
     let v ← Calc.sma { cs := H ++ c :: rest, i := H.length, name := Z.name } q inp
     pure (H ++ setKey true Z.name (v.roundBy defaultRound) c :: rest)) = _
-  rw [sma_loc H c rest Z.name q inp hq hinv, sma_last H c₀ c Z.name q inp h]
+  rw [st_sma_loc H c rest Z.name q inp hq hinv, st_sma_last H c₀ c Z.name q inp h]
 
 end Hex
 
@@ -493,7 +493,7 @@ theorem stochTail_step (hn : StochNames name) (hs : 1 ≤ slow) (hk : 1 ≤ smoo
   unfold stochTail stochOps stochVal2
   simp only [setReading_eq, updateAt_append_cons, bind, Except.bind, pure, Except.pure]
   -- first `set_reading`: the SMA over `stoch`
-  rw [stepLeaf_sma (stochK name smoothK) smoothK (name ++ "_data.stoch") rfl rfl rfl H _ _ rest hk
+  rw [st_stepLeaf_sma (stochK name smoothK) smoothK (name ++ "_data.stoch") rfl rfl rfl H _ _ rest hk
     (by rw [stochK_name]; exact hiK) rfl]
   simp only [stochK_name, bind, Except.bind, pure, Except.pure]
   cases hsk : Calc.sma (Ctx.mk (H ++ [setKey true (name ++ "_data") (sdict [("stoch", sc st)]) c]) H.length
@@ -507,17 +507,17 @@ theorem stochTail_step (hn : StochNames name) (hs : 1 ≤ slow) (hk : 1 ≤ smoo
     | ok ks =>
       simp only [updateAt_append_cons]
       -- second `set_reading`: the same SMA again
-      rw [stepLeaf_sma (stochK name smoothK) smoothK (name ++ "_data.stoch") rfl rfl rfl H _
+      rw [st_stepLeaf_sma (stochK name smoothK) smoothK (name ++ "_data.stoch") rfl rfl rfl H _
         (setKey true (name ++ "_data") (sdict [("stoch", sc st)]) c) rest hk
         (by rw [stochK_name]; exact hiK)
         (by rw [rbc_data_field _ "stoch" _ hn.dotS _ (by exact hD), rbc_data_field _ "stoch" _ hn.dotS _ hD,
               nested_stoch1, nested_stoch2])]
       simp only [stochK_name, hsk, bind, Except.bind, pure, Except.pure]
       -- `calculate_index` of the SMA over `k`
-      rw [stepLeaf_sma (stochD name slow) slow (name ++ "_data.k") rfl rfl rfl H _
+      rw [st_stepLeaf_sma (stochD name slow) slow (name ++ "_data.k") rfl rfl rfl H _
         (setKey true (name ++ "_data") (sdict [("stoch", sc st), ("k", ks)]) c) rest hs
         (by rw [stochD_name]; exact hiD)
-        (by rw [indep_dotted (name ++ "_k") _ _ "k" hn.dotK hn.DK.symm,
+        (by rw [st_indep_dotted (name ++ "_k") _ _ "k" hn.dotK hn.DK.symm,
               rbc_data_field _ "k" _ hn.dotK _ (by exact hD), rbc_data_field _ "k" _ hn.dotK _ hD])]
       simp only [stochD_name, bind, Except.bind, pure, Except.pure]
       cases hsd : Calc.sma (Ctx.mk (H ++ [setKey true (name ++ "_data") (sdict [("stoch", sc st), ("k", ks)]) c])
@@ -530,7 +530,554 @@ theorem stochTail_step (hn : StochNames name) (hs : 1 ≤ slow) (hk : 1 ≤ smoo
         | error e => rfl
         | ok ds =>
           simp only [stochStore]
-          rw [setKey_collapse (name ++ "_data") (name ++ "_k") hn.DK]
+          rw [st_setKey_collapse (name ++ "_data") (name ++ "_k") hn.DK]
 
 end stochNode
 end Hex
+
+namespace Hex
+set_option linter.unusedSectionVars false
+variable {F : Type} [PyF F]
+
+/-! ### generic SMA facts used by the laws -/
+
+/-- key locality of an SMA at the end of a history -/
+theorem st_sma_sim (keys : List String) (nm : String) (q : Int) (inp : String) (hsee : Sees F keys inp)
+    (hk : IsKey nm) (hm : nm ∈ keys) {H H' : List (Candle F)} {a b : Candle F}
+    (hH : SimL keys H H') (hab : SimK keys a b) :
+    Calc.sma { cs := H ++ [a], i := H.length, name := nm } q inp
+      = Calc.sma { cs := H' ++ [b], i := H'.length, name := nm } q inp := by
+  have hown := sameCol_simL keys nm (sees_key _ _ hk hm) hH hab nm
+  exact sma_congr _ _ q inp (sameCol_simL keys inp hsee hH hab nm)
+    (Ctx.prevExists_congr hown) (Ctx.prevNum_congr hown)
+
+/-- a non-`None` SMA reading at the end of a history satisfying the window invariant needs `q`
+candles -/
+theorem st_sma_window (H : List (Candle F)) (c₀ : Candle F) (nm : String) (q : Int) (inp : String) (s : Val F)
+    (n : Nat) (hinv : WindowInv nm q H)
+    (hs : Calc.sma { cs := H ++ [c₀], i := H.length, name := nm } q inp = .ok s)
+    (hne : (s.roundBy n).isNone = false) : q ≤ (H.length : Int) + 1 := by
+  rw [Val.roundBy_isNone] at hne
+  rcases sma_nonNone _ q inp s hs hne with h | h
+  · rw [Ctx.prevExists_append_cons] at h
+    have : (Ctx.lastReading nm H).isNone = false := by simpa using Except.ok.inj h
+    have := hinv this
+    omega
+  · have := readingPeriod_true_bound _ q inp _ h
+    simp only [Option.getD_none] at this
+    omega
+
+theorem st_windowInv_snoc (nm : String) (q : Int) (H : List (Candle F)) (c' : Candle F)
+    (h : (readingByCandle c' nm).isNone = false → q ≤ (H.length : Int) + 1) :
+    WindowInv nm q (H ++ [c']) := by
+  intro hne
+  have hlast : Ctx.lastReading nm (H ++ [c']) = readingByCandle c' nm := by
+    unfold Ctx.lastReading
+    rw [List.getLast?_append]
+    simp
+  rw [hlast] at hne
+  have hlen : ((H ++ [c']).length : Int) = H.length + 1 := by simp
+  rw [hlen]
+  exact h hne
+
+section stochStep
+variable (name : String) (round : Nat) (p slow smoothK : Int) (input : String)
+
+/-- **the node's step on `H ++ c :: rest`**: compute from `H` and `c` only, store on `c` -/
+theorem stepWith_stochC (hn : StochNames name) (hp : 1 ≤ p) (hs : 1 ≤ slow) (hk : 1 ≤ smoothK)
+    (H : List (Candle F)) (c : Candle F) (rest : List (Candle F))
+    (hiK : WindowInv (name ++ "_k") smoothK H) (hiD : WindowInv (name ++ "_d") slow H)
+    (hD : dlookup (name ++ "_data") c.inds = none) (hK : dlookup (name ++ "_k") c.inds = none)
+    (hd : dlookup (name ++ "_d") c.inds = none) :
+    stepWith (stochP name round p slow smoothK input) (stochC name p slow smoothK input) (H ++ c :: rest) H.length
+      = (do
+        let z ← stochVal name p slow smoothK input H c
+        pure (H ++ stochApp name round z c :: rest)) := by
+  unfold stepWith stochC stochVal
+  rw [stoch_eq]
+  have e := stochR_trunc p input ({ cs := H ++ c :: rest, i := H.length, name := name } : Ctx F)
+    (by simp) (by simp) hp
+  rw [trunc_append_cons] at e
+  rw [← e]
+  simp only [stochP_isSub, stochP_name, stochP_round, bind, Except.bind]
+  cases stochR p input ({ cs := H ++ [c], i := H.length, name := name } : Ctx F) with
+  | error e => rfl
+  | ok o =>
+    cases o with
+    | none =>
+      simp only [pure, Except.pure, setReading_eq, updateAt_append_cons]
+      rfl
+    | some st =>
+      simp only
+      rw [stochTail_step name slow smoothK hn hs hk H c rest hiK hiD hD hK hd st]
+      simp only [bind, Except.bind]
+      cases stochVal2 name slow smoothK H c st with
+      | error e => rfl
+      | ok z =>
+        simp only [pure, Except.pure, setReading_eq, updateAt_append_cons]
+        rfl
+
+/-! ### the component -/
+
+/-- **the STOCH node's own step as a tolerant component**: reads the bare candles and the
+`<name>_data` / `<name>_k` / `<name>_d` series of the history, writes four keys -/
+def stochCompP : TComp F where
+  name := name
+  ω := Option (Val F × Val F × Val F) × Val F
+  val := stochVal name p slow smoothK input
+  app := stochApp name round
+  rkeys := [name ++ "_data", name ++ "_k", name ++ "_d"]
+  wkeys := [name ++ "_data", name ++ "_k", name ++ "_d", name]
+  Raw := fun c => hasKey name c = false ∧ hasKey (name ++ "_data") c = false ∧
+    hasKey (name ++ "_k") c = false ∧ hasKey (name ++ "_d") c = false
+  Settled := fun H => (∀ d ∈ H, hasKey name d = true) ∧ WindowInv (name ++ "_k") smoothK H ∧
+    WindowInv (name ++ "_d") slow H
+  pass := Gen.nodeCalc (specWith (stochP name round p slow smoothK input) (stochC name p slow smoothK input))
+
+/-! #### the store -/
+
+theorem frameK_stochStore (d : Option (Val F × Val F × Val F)) (c : Candle F) :
+    FrameK ([name ++ "_data"] ++ [name ++ "_k"] ++ [name ++ "_d"]) c (stochStore name d c) := by
+  cases d with
+  | none => exact st_frameK_refl _ c
+  | some abe =>
+    obtain ⟨a, b, e⟩ := abe
+    exact TComp.frameK_trans (TComp.frameK_trans (frameK_setKey true _ a c) (frameK_setKey true _ b _))
+      (frameK_setKey true _ e _)
+
+theorem frameK_stochApp (z : Option (Val F × Val F × Val F) × Val F) (c : Candle F) :
+    FrameK [name ++ "_data", name ++ "_k", name ++ "_d", name] c (stochApp name round z c) :=
+  TComp.frameK_trans (frameK_stochStore name z.1 c) (frameK_setKey false name _ _)
+
+theorem simK_stochApp (keys : List String) (z : Option (Val F × Val F × Val F) × Val F) (c c' : Candle F)
+    (h : SimK keys c c') : SimK keys (stochApp name round z c) (stochApp name round z c') := by
+  unfold stochApp
+  refine simK_setKey keys _ _ _ _ _ ?_
+  obtain ⟨d, w⟩ := z
+  cases d with
+  | none => exact h
+  | some abe =>
+    obtain ⟨a, b, e⟩ := abe
+    exact simK_setKey keys _ _ _ _ _ (simK_setKey keys _ _ _ _ _ (simK_setKey keys _ _ _ _ _ h))
+
+theorem inds_stochStore (d : Option (Val F × Val F × Val F)) (c : Candle F) :
+    (stochStore name d c).inds = c.inds := by
+  cases d with
+  | none => rfl
+  | some abe => rfl
+
+theorem inds_stochApp (k : String) (hk : name ≠ k) (z : Option (Val F × Val F × Val F) × Val F) (c : Candle F) :
+    dlookup k (stochApp name round z c).inds = dlookup k c.inds := by
+  show dlookup k (dset name _ (stochStore name z.1 c).inds) = _
+  rw [dlookup_dset_ne _ _ _ _ hk, inds_stochStore]
+
+/-- a reading that sees none of the four written keys is unchanged by the store -/
+theorem rbc_stochApp (nm : String) (h1 : Indep F name nm) (h2 : Indep F (name ++ "_data") nm)
+    (h3 : Indep F (name ++ "_k") nm) (h4 : Indep F (name ++ "_d") nm)
+    (z : Option (Val F × Val F × Val F) × Val F) (c : Candle F) :
+    readingByCandle (stochApp name round z c) nm = readingByCandle c nm := by
+  unfold stochApp
+  rw [h1]
+  obtain ⟨d, w⟩ := z
+  cases d with
+  | none => rfl
+  | some abe =>
+    obtain ⟨a, b, e⟩ := abe
+    show readingByCandle (setKey true _ e (setKey true _ b (setKey true _ a c))) nm = _
+    rw [h4, h3, h2]
+
+theorem entries_stochApp (z : Option (Val F × Val F × Val F) × Val F) (c : Candle F) :
+    (∀ q ∈ (stochApp name round z c).inds,
+      q ∈ c.inds ∨ q.1 ∈ [name ++ "_data", name ++ "_k", name ++ "_d", name]) ∧
+    (∀ q ∈ (stochApp name round z c).subs,
+      q ∈ c.subs ∨ q.1 ∈ [name ++ "_data", name ++ "_k", name ++ "_d", name]) := by
+  have hst : (∀ q ∈ (stochStore name z.1 c).inds, q ∈ c.inds) ∧
+      (∀ q ∈ (stochStore name z.1 c).subs,
+        q ∈ c.subs ∨ q.1 ∈ [name ++ "_data", name ++ "_k", name ++ "_d", name]) := by
+    obtain ⟨d, w⟩ := z
+    cases d with
+    | none => exact ⟨fun q hq => hq, fun q hq => Or.inl hq⟩
+    | some abe =>
+      obtain ⟨a, b, e⟩ := abe
+      refine ⟨fun q hq => hq, fun q hq => ?_⟩
+      rcases (st_entries_setKey true (name ++ "_d") e _).2 q hq with h | h
+      · rcases (st_entries_setKey true (name ++ "_k") b _).2 q h with h' | h'
+        · rcases (st_entries_setKey true (name ++ "_data") a c).2 q h' with h'' | h''
+          · exact Or.inl h''
+          · exact Or.inr (by simp [h''])
+        · exact Or.inr (by simp [h'])
+      · exact Or.inr (by simp [h])
+  constructor
+  · intro q hq
+    rcases (st_entries_setKey false name _ _).1 q hq with h | h
+    · exact Or.inl (hst.1 q h)
+    · exact Or.inr (by simp [h])
+  · intro q hq
+    rcases (st_entries_setKey false name _ _).2 q hq with h | h
+    · exact hst.2 q h
+    · exact Or.inr (by simp [h])
+
+end stochStep
+end Hex
+
+namespace Hex
+set_option linter.unusedSectionVars false
+variable {F : Type} [PyF F]
+
+section stochLaws
+variable (name : String) (round : Nat) (p slow smoothK : Int) (input : String)
+
+/-! #### key locality of the value -/
+
+theorem stochVal2_sim (hn : StochNames name) (H H' : List (Candle F)) (c c' : Candle F)
+    (hH : SimL [name ++ "_data", name ++ "_k", name ++ "_d"] H H')
+    (hc : SimK [name ++ "_data", name ++ "_k", name ++ "_d"] c c') (st : Num F) :
+    stochVal2 name slow smoothK H c st = stochVal2 name slow smoothK H' c' st := by
+  unfold stochVal2
+  rw [st_sma_sim _ (name ++ "_k") smoothK (name ++ "_data.stoch")
+    (sees_dotted _ _ (name ++ "_data") "stoch" hn.dotS (by simp)) hn.kK (by simp) hH
+    (simK_setKey _ true (name ++ "_data") (sdict [("stoch", sc st)]) c c' hc)]
+  simp only [bind, Except.bind]
+  cases Calc.sma (Ctx.mk (H' ++ [setKey true (name ++ "_data") (sdict [("stoch", sc st)]) c']) H'.length
+      (name ++ "_k")) smoothK (name ++ "_data.stoch") with
+  | error e => rfl
+  | ok k =>
+    simp only
+    cases Val.toScalar (k.roundBy defaultRound) with
+    | error e => rfl
+    | ok ks =>
+      simp only
+      rw [st_sma_sim _ (name ++ "_d") slow (name ++ "_data.k")
+        (sees_dotted _ _ (name ++ "_data") "k" hn.dotK (by simp)) hn.kd (by simp) hH
+        (simK_setKey _ true (name ++ "_data") (sdict [("stoch", sc st), ("k", ks)]) c c' hc)]
+
+theorem stochVal_sim (hn : StochNames name) (hin : NoDot input ∧ input ∈ Candle.attrNames)
+    (H H' : List (Candle F)) (c c' : Candle F)
+    (hH : SimL [name ++ "_data", name ++ "_k", name ++ "_d"] H H')
+    (hc : SimK [name ++ "_data", name ++ "_k", name ++ "_d"] c c') :
+    stochVal name p slow smoothK input H c = stochVal name p slow smoothK input H' c' := by
+  unfold stochVal
+  rw [stochR_congr p input _ _
+    (sameCol_simL _ "low" (sees_attr _ _ noDot_low (by decide)) hH hc name)
+    (sameCol_simL _ "high" (sees_attr _ _ noDot_high (by decide)) hH hc name)
+    (sameCol_simL _ input (sees_attr _ _ hin.1 hin.2) hH hc name)]
+  simp only [stochVal2_sim name slow smoothK hn H H' c c' hH hc]
+
+/-- on candles without a top-level entry under the data name, the second half of the step does not
+depend on the current candle at all -/
+theorem stochVal2_cur (hn : StochNames name) (H : List (Candle F)) (c c' : Candle F)
+    (hD : dlookup (name ++ "_data") c.inds = none) (hD' : dlookup (name ++ "_data") c'.inds = none)
+    (st : Num F) : stochVal2 name slow smoothK H c' st = stochVal2 name slow smoothK H c st := by
+  unfold stochVal2
+  rw [st_sma_last H (setKey true (name ++ "_data") (sdict [("stoch", sc st)]) c)
+    (setKey true (name ++ "_data") (sdict [("stoch", sc st)]) c') (name ++ "_k") smoothK (name ++ "_data.stoch")
+    (by rw [rbc_data_field _ "stoch" _ hn.dotS _ hD', rbc_data_field _ "stoch" _ hn.dotS _ hD])]
+  simp only [bind, Except.bind]
+  cases Calc.sma (Ctx.mk (H ++ [setKey true (name ++ "_data") (sdict [("stoch", sc st)]) c]) H.length
+      (name ++ "_k")) smoothK (name ++ "_data.stoch") with
+  | error e => rfl
+  | ok k =>
+    simp only
+    cases Val.toScalar (k.roundBy defaultRound) with
+    | error e => rfl
+    | ok ks =>
+      simp only
+      rw [st_sma_last H (setKey true (name ++ "_data") (sdict [("stoch", sc st), ("k", ks)]) c)
+        (setKey true (name ++ "_data") (sdict [("stoch", sc st), ("k", ks)]) c') (name ++ "_d") slow
+        (name ++ "_data.k")
+        (by rw [rbc_data_field _ "k" _ hn.dotK _ hD', rbc_data_field _ "k" _ hn.dotK _ hD])]
+
+/-- **stability**: recomputing a finished candle reproduces its value -/
+theorem stochVal_stable (hn : StochNames name) (hin : NoDot input ∧ input ∈ Candle.attrNames)
+    (H : List (Candle F)) (c : Candle F) (z : Option (Val F × Val F × Val F) × Val F)
+    (hraw : hasKey (name ++ "_data") c = false) :
+    stochVal name p slow smoothK input H (stochApp name round z c) = stochVal name p slow smoothK input H c := by
+  have hat : ∀ nm, NoDot nm → nm ∈ Candle.attrNames →
+      readingByCandle (stochApp name round z c) nm = readingByCandle c nm := fun nm h1 h2 =>
+    rbc_stochApp name round nm (indep_attr _ _ h1 h2) (indep_attr _ _ h1 h2) (indep_attr _ _ h1 h2)
+      (indep_attr _ _ h1 h2) z c
+  unfold stochVal
+  rw [stochR_congr p input _ _
+    (sameCol_last "low" H c _ name (hat "low" noDot_low (by decide)))
+    (sameCol_last "high" H c _ name (hat "high" noDot_high (by decide)))
+    (sameCol_last input H c _ name (hat input hin.1 hin.2))]
+  have hD := inds_of_noKey _ c hraw
+  have hD' : dlookup (name ++ "_data") (stochApp name round z c).inds = none := by
+    rw [inds_stochApp name round _ hn.nD]; exact hD
+  simp only [stochVal2_cur name slow smoothK hn H c _ hD hD']
+
+/-! #### absorption, the invariants, the pass -/
+
+theorem stochApp_absorb (hn : StochNames name) (z : Option (Val F × Val F × Val F) × Val F) (c d : Candle F)
+    (hd : SimK [name ++ "_data", name ++ "_k", name ++ "_d", name] d (stochApp name round z c)) :
+    stochApp name round z d = d := by
+  obtain ⟨dd, w⟩ := z
+  have hN : dlookup name d.inds = some (w.roundBy round) := by
+    rw [(hd.2 name (by simp)).1]
+    show dlookup name (dset name _ _) = _
+    exact dlookup_dset_self _ _ _
+  cases dd with
+  | none =>
+    show setKey false name (w.roundBy round) d = d
+    exact st_setKey_ind_absorb _ _ _ hN
+  | some abe =>
+    obtain ⟨a, b, e⟩ := abe
+    have hA : dlookup (name ++ "_data") d.subs = some a := by
+      rw [(hd.2 (name ++ "_data") (by simp)).2]
+      show dlookup (name ++ "_data")
+        (dset (name ++ "_d") e (dset (name ++ "_k") b (dset (name ++ "_data") a c.subs))) = _
+      rw [dlookup_dset_ne _ _ _ _ hn.Dd.symm, dlookup_dset_ne _ _ _ _ hn.DK.symm, dlookup_dset_self]
+    have hB : dlookup (name ++ "_k") d.subs = some b := by
+      rw [(hd.2 (name ++ "_k") (by simp)).2]
+      show dlookup (name ++ "_k")
+        (dset (name ++ "_d") e (dset (name ++ "_k") b (dset (name ++ "_data") a c.subs))) = _
+      rw [dlookup_dset_ne _ _ _ _ hn.Kd.symm, dlookup_dset_self]
+    have hE : dlookup (name ++ "_d") d.subs = some e := by
+      rw [(hd.2 (name ++ "_d") (by simp)).2]
+      show dlookup (name ++ "_d")
+        (dset (name ++ "_d") e (dset (name ++ "_k") b (dset (name ++ "_data") a c.subs))) = _
+      exact dlookup_dset_self _ _ _
+    show setKey false name (w.roundBy round)
+      (setKey true (name ++ "_d") e (setKey true (name ++ "_k") b (setKey true (name ++ "_data") a d))) = d
+    rw [st_setKey_sub_absorb _ _ _ hA, st_setKey_sub_absorb _ _ _ hB, st_setKey_sub_absorb _ _ _ hE,
+      st_setKey_ind_absorb _ _ _ hN]
+
+/-- the invariants of the two SMA helpers are kept by the node's step -/
+theorem stoch_settled_step (hn : StochNames name) (H : List (Candle F)) (r : Candle F)
+    (z : Option (Val F × Val F × Val F) × Val F)
+    (hiK : WindowInv (name ++ "_k") smoothK H) (hiD : WindowInv (name ++ "_d") slow H)
+    (hrK : hasKey (name ++ "_k") r = false) (hrD : hasKey (name ++ "_d") r = false)
+    (hv : stochVal name p slow smoothK input H r = .ok z) :
+    WindowInv (name ++ "_k") smoothK (H ++ [stochApp name round z r]) ∧
+    WindowInv (name ++ "_d") slow (H ++ [stochApp name round z r]) := by
+  unfold stochVal at hv
+  simp only [bind, Except.bind] at hv
+  cases hR : stochR p input ({ cs := H ++ [r], i := H.length, name := name } : Ctx F) with
+  | error e => rw [hR] at hv; cases hv
+  | ok o =>
+    rw [hR] at hv
+    cases o with
+    | none =>
+      -- nothing stored: the helpers' readings stay `None`
+      simp only [pure, Except.pure] at hv
+      cases hv
+      constructor
+      · apply st_windowInv_snoc
+        intro hne
+        have : readingByCandle (stochApp name round (none, stochNone) r) (name ++ "_k") = .none := by
+          unfold stochApp stochStore
+          rw [indep_key _ _ hn.kK hn.nK]
+          exact st_rbc_noKey _ hn.kK r hrK
+        rw [this] at hne
+        cases hne
+      · apply st_windowInv_snoc
+        intro hne
+        have : readingByCandle (stochApp name round (none, stochNone) r) (name ++ "_d") = .none := by
+          unfold stochApp stochStore
+          rw [indep_key _ _ hn.kd hn.nd]
+          exact st_rbc_noKey _ hn.kd r hrD
+        rw [this] at hne
+        cases hne
+    | some st =>
+      simp only at hv
+      unfold stochVal2 at hv
+      simp only [bind, Except.bind, pure, Except.pure] at hv
+      cases hsk : Calc.sma (Ctx.mk (H ++ [setKey true (name ++ "_data") (sdict [("stoch", sc st)]) r]) H.length
+          (name ++ "_k")) smoothK (name ++ "_data.stoch") with
+      | error e => rw [hsk] at hv; cases hv
+      | ok k =>
+        rw [hsk] at hv
+        simp only at hv
+        cases hks : Val.toScalar (k.roundBy defaultRound) with
+        | error e => rw [hks] at hv; cases hv
+        | ok ks =>
+          rw [hks] at hv
+          simp only at hv
+          cases hsd : Calc.sma (Ctx.mk (H ++ [setKey true (name ++ "_data") (sdict [("stoch", sc st), ("k", ks)]) r])
+              H.length (name ++ "_d")) slow (name ++ "_data.k") with
+          | error e => rw [hsd] at hv; cases hv
+          | ok d =>
+            rw [hsd] at hv
+            simp only at hv
+            cases hds : Val.toScalar (d.roundBy defaultRound) with
+            | error e => rw [hds] at hv; cases hv
+            | ok ds =>
+              rw [hds] at hv
+              simp only at hv
+              cases hv
+              constructor
+              · apply st_windowInv_snoc
+                intro hne
+                have hrd : readingByCandle (stochApp name round
+                    (some (sdict [("stoch", sc st), ("k", ks)], k.roundBy defaultRound, d.roundBy defaultRound),
+                      sdict [("stoch", sc st), ("k", ks), ("d", ds)]) r) (name ++ "_k")
+                    = k.roundBy defaultRound := by
+                  unfold stochApp stochStore
+                  rw [indep_key _ _ hn.kK hn.nK, indep_key _ _ hn.kK hn.Kd.symm]
+                  exact rbc_data_self _ hn.kK _ (by exact inds_of_noKey _ r hrK) _
+                rw [hrd] at hne
+                exact st_sma_window H _ _ smoothK _ k defaultRound hiK hsk hne
+              · apply st_windowInv_snoc
+                intro hne
+                have hrd : readingByCandle (stochApp name round
+                    (some (sdict [("stoch", sc st), ("k", ks)], k.roundBy defaultRound, d.roundBy defaultRound),
+                      sdict [("stoch", sc st), ("k", ks), ("d", ds)]) r) (name ++ "_d")
+                    = d.roundBy defaultRound := by
+                  unfold stochApp stochStore
+                  rw [indep_key _ _ hn.kd hn.nd]
+                  exact rbc_data_self _ hn.kd _ (by exact inds_of_noKey _ r hrD) _
+                rw [hrd] at hne
+                exact st_sma_window H _ _ slow _ d defaultRound hiD hsd hne
+
+end stochLaws
+end Hex
+
+namespace Hex
+set_option linter.unusedSectionVars false
+variable {F : Type} [PyF F]
+
+section stochComp
+variable (name : String) (round : Nat) (p slow smoothK : Int) (input : String)
+
+/-- the node's loop over raw candles is the row-major fold -/
+theorem nodeLoop_runS (hn : StochNames name) (hp : 1 ≤ p) (hs : 1 ≤ slow) (hk : 1 ≤ smoothK)
+    (R : List (Candle F)) :
+    ∀ (H : List (Candle F)), WindowInv (name ++ "_k") smoothK H → WindowInv (name ++ "_d") slow H →
+      (∀ r ∈ R, (stochCompP (F := F) name round p slow smoothK input).Raw r) →
+      Gen.nodeLoop (specWith (stochP name round p slow smoothK input) (stochC name p slow smoothK input))
+          (H ++ R) H.length R.length
+        = (stochCompP name round p slow smoothK input).rowFrom H R := by
+  induction R with
+  | nil => intro H _ _ _; simp [Gen.nodeLoop, TComp.rowFrom_nil]
+  | cons r R' ih =>
+    intro H hiK hiD hR
+    have hr := hR r (by simp)
+    have hrs : (stochCompP (F := F) name round p slow smoothK input).rowStep H r = (do
+        let z ← stochVal name p slow smoothK input H r; pure (H ++ [stochApp name round z r])) := rfl
+    rw [List.length_cons, Gen.nodeLoop, pyIndex_append_cons, TComp.rowFrom_cons, hrs]
+    have hpres : present (specWith (stochP (F := F) name round p slow smoothK input)
+        (stochC name p slow smoothK input)).name r = false :=
+      present_of_noKey _ r (by
+        show hasKey (stochP (F := F) name round p slow smoothK input).name r = false
+        rw [stochP_name]; exact hr.1)
+    simp only [bind, Except.bind, hpres, Bool.false_eq_true, if_false]
+    have hstep : (specWith (stochP name round p slow smoothK input) (stochC name p slow smoothK input)).step
+          (H ++ r :: R') H.length = (do
+        let z ← stochVal name p slow smoothK input H r
+        pure (H ++ stochApp name round z r :: R')) :=
+      stepWith_stochC name round p slow smoothK input hn hp hs hk H r R' hiK hiD
+        (inds_of_noKey _ r hr.2.1) (inds_of_noKey _ r hr.2.2.1) (inds_of_noKey _ r hr.2.2.2)
+    rw [hstep]
+    cases hv : stochVal name p slow smoothK input H r with
+    | error e => rfl
+    | ok z =>
+      simp only [bind, Except.bind, pure, Except.pure]
+      have hi := stoch_settled_step name round p slow smoothK input hn H r z hiK hiD hr.2.2.1 hr.2.2.2 hv
+      have := ih (H ++ [stochApp name round z r]) hi.1 hi.2 (fun x hx => hR x (by simp [hx]))
+      simpa using this
+
+/-- **the laws of the STOCH node's own step** -/
+theorem stochCompP_law (hn : StochNames name) (hp : 1 ≤ p) (hs : 1 ≤ slow) (hk : 1 ≤ smoothK)
+    (hin : NoDot input ∧ input ∈ Candle.attrNames) :
+    TComp.Law (stochCompP (F := F) name round p slow smoothK input) where
+  name_w := by simp [stochCompP]
+  app_frame := fun z c => frameK_stochApp name round z c
+  app_key := fun z c => hasKey_setKey _ _ _ _
+  app_entries := fun z c => entries_stochApp name round z c
+  app_sim := fun keys z c c' h => simK_stochApp name round keys z c c' h
+  raw_nokey := fun c h => h.1
+  raw_of := fun c h => ⟨h name (by simp [stochCompP]), h (name ++ "_data") (by simp [stochCompP]),
+    h (name ++ "_k") (by simp [stochCompP]), h (name ++ "_d") (by simp [stochCompP])⟩
+  val_sim := fun H H' c c' hs hc => stochVal_sim name p slow smoothK input hn hin H H' c c' hs hc
+  stable := by
+    intro H c z hraw hv
+    show stochVal name p slow smoothK input H (stochApp name round z c) = .ok z
+    rw [stochVal_stable name round p slow smoothK input hn hin H c z hraw.2.1]
+    exact hv
+  absorb := fun z c d _ hd => stochApp_absorb name round hn z c d hd
+  settled_nil := ⟨(by intro d hd; cases hd), windowInv_nil _ _, windowInv_nil _ _⟩
+  settled_step := by
+    intro H r z hs' hraw hv
+    have hi := stoch_settled_step name round p slow smoothK input hn H r z hs'.2.1 hs'.2.2
+      hraw.2.2.1 hraw.2.2.2 hv
+    refine ⟨?_, hi.1, hi.2⟩
+    intro d hd
+    rcases List.mem_append.1 hd with h | h
+    · exact hs'.1 d h
+    · simp at h; subst h; exact hasKey_setKey _ _ _ _
+  settled_sim := by
+    intro H H' hs' hsim
+    refine ⟨?_, ?_, ?_⟩
+    · intro d' hd'
+      obtain ⟨d, hd, hdd⟩ := TComp.forall₂_mem_right' hsim d' hd'
+      rw [← hasKey_simK (keys := (stochCompP (F := F) name round p slow smoothK input).rkeys ++
+        (stochCompP (F := F) name round p slow smoothK input).wkeys) (by simp [stochCompP]) hdd]
+      exact hs'.1 d hd
+    · intro hne
+      rw [← lastReading_simL (name ++ "_k") hn.kK _ (by simp [stochCompP]) hsim] at hne
+      rw [← hsim.length_eq]
+      exact hs'.2.1 hne
+    · intro hne
+      rw [← lastReading_simL (name ++ "_d") hn.kd _ (by simp [stochCompP]) hsim] at hne
+      rw [← hsim.length_eq]
+      exact hs'.2.2 hne
+  pass_iff := by
+    intro H R out hs' hR
+    have key : Gen.nodeCalc (specWith (stochP name round p slow smoothK input)
+          (stochC name p slow smoothK input)) (H ++ R)
+        = (stochCompP name round p slow smoothK input).rowFrom H R := by
+      unfold Gen.nodeCalc
+      have hnm : (specWith (stochP (F := F) name round p slow smoothK input)
+          (stochC name p slow smoothK input)).name = name :=
+        stochP_name (F := F) name round p slow smoothK input
+      rw [hnm, findCalcIndex_split name H R hs'.1 (fun r hr => (hR r hr).1)]
+      have : (H ++ R).length - H.length = R.length := by simp
+      rw [this]
+      exact nodeLoop_runS name round p slow smoothK input hn hp hs hk R H hs'.2.1 hs'.2.2 hR
+    show Gen.nodeCalc (specWith (stochP name round p slow smoothK input)
+      (stochC name p slow smoothK input)) (H ++ R) = .ok out ↔ _
+    rw [key]
+
+end stochComp
+
+section stochTree
+variable (name : String) (round : Nat) (p slow smoothK : Int) (input : String)
+  (hp : 2 ≤ p) (hs : 1 ≤ slow) (hk : 1 ≤ smoothK) (hn : StochNames name)
+  (hin : NoDot input ∧ input ∈ Candle.attrNames)
+
+theorem allNames_stoch : (stochP (F := F) name round p slow smoothK input).allNames
+    = [name, name ++ "_data", name ++ "_k", name ++ "_d"] := by
+  simp [stochP, mkTop, children, Ind.allNames_eq, Ind.allNamesL, Ind.allNamesM, leaf, Ind.name, Ind.subs,
+    Ind.managed]
+
+/-- **Stochastic as a tree with a row-major spec.** -/
+def stochTree : TreeSpec (mkTop (.stoch p slow smoothK input : Kind F) name round) :=
+  TreeSpec.ofComp (ind := stochP (F := F) name round p slow smoothK input)
+    (stochCompP name round p slow smoothK input)
+    (stochCompP_law name round p slow smoothK input hn (by omega) hs hk hin)
+    (fun c hc => (stochCompP_law name round p slow smoothK input hn (by omega) hs hk hin).raw_of c
+      (fun k _ => hasKey_plain k c hc))
+    (by
+      intro k hk'
+      rw [allNames_stoch]
+      simp [stochCompP] at hk' ⊢
+      rcases hk' with h | h | h | h <;> simp [h])
+    (fun cs => engineCalc_stoch name round p slow smoothK input hp cs)
+
+end stochTree
+
+/-- the hypotheses are met by the default name of `STOCH(period=3)` -/
+example : StochNames "STOCH_3" :=
+  ⟨by decide, by decide, by decide, by decide, by decide, by decide, by decide, by decide, by decide,
+    by decide⟩
+
+example : Nonempty (TreeSpec (mkTop (.stoch 3 3 3 "close" : Kind F) "STOCH_3" 4)) :=
+  ⟨stochTree "STOCH_3" 4 3 3 3 "close" (by decide) (by decide) (by decide)
+    ⟨by decide, by decide, by decide, by decide, by decide, by decide, by decide, by decide, by decide,
+      by decide⟩ (by decide)⟩
+
+end Hex
+
+#print axioms Hex.stochTree
+#print axioms Hex.engineCalc_stoch
+#print axioms Hex.stepWith_stochC
